@@ -18,6 +18,13 @@ MUT = {
  "m14": ("internal/report/report.go", "\tcase RPT_TRIG_ENVCL:\n\t\tt.Flags |= USAR_TRIG_ENVCL", "\tcase RPT_TRIG_ENVCL:\n\t\tt.Flags |= USAR_TRIG_MONIT"),
  "m15": ("internal/gtpv1/msg.go", "\tb[2] = e.PDUType << 4", "\tb[2] = e.PDUType << 3"),
  "m16": ("internal/report/report.go", "\tv := make([]byte, max(2, len(b)))\n\tcopy(v, b)\n\ta.Flags = binary.LittleEndian.Uint16(v)", "\tv := make([]byte, max(2, len(b)))\n\tcopy(v, b)\n\ta.Flags = binary.BigEndian.Uint16(v)"),
+ "m17": ("internal/forwarder/gtp5g.go", "\t\t\t*x = uint32(p[0])<<16 | uint32(p[1])", "\t\t\t*x = uint32(p[1])<<16 | uint32(p[0])"),
+ "m18": ("internal/forwarder/gtp5g.go", "\t\tfd.SrcPorts, fd.DstPorts = fd.DstPorts, fd.SrcPorts\n", ""),
+ "m19": ("internal/forwarder/flowdesc.go", "\t_, ipnet, err := net.ParseCIDR(s)\n\tif err == nil {\n\t\treturn ipnet, nil", "\tip0, ipnet, err := net.ParseCIDR(s)\n\tif err == nil {\n\t\tipnet.IP = ip0.To4()\n\t\treturn ipnet, nil"),
+ "m20": ("pkg/factory/config.go", 'valid:"required,in(trace|debug|info|warn|error|fatal|panic)"', 'valid:"optional,in(trace|debug|info|warn|error|fatal|panic)"'),
+ "m21": ("pkg/factory/config.go", 'yaml:"cidr"      valid:"required,cidr"', 'yaml:"cidr"      valid:"required"'),
+ "m22": ("pkg/factory/factory.go", "\t\treturn nil, errors.Errorf(\"cfg.Pfcp.NodeID[%s] can't be resolved\", cfg.Pfcp.NodeID)", "\t\tlogger.CfgLog.Warnf(\"cfg.Pfcp.NodeID[%s] can't be resolved\", cfg.Pfcp.NodeID)"),
+ "m23": ("pkg/factory/config.go", 'valid:"required,in(N3|N9)"', 'valid:"required,in(N3|N9|N6)"'),
 }
 name = sys.argv[1]
 f, old, new = MUT[name]
@@ -29,7 +36,7 @@ try:
     env = dict(os.environ, GOFLAGS="-mod=mod", GOPROXY="off", GOSUMDB="off", GOTOOLCHAIN="local")
     r = subprocess.run(["go", "build", "./..."], cwd="/repo", env=env)
     print("build rc", r.returncode)
-    r = subprocess.run("go test -count=1 ./internal/pfcp/ ./internal/report/ ./internal/gtpv1/ 2>&1 | tail -3", shell=True, cwd="/repo", env=env)
+    r = subprocess.run("go test -count=1 ./internal/pfcp/ ./internal/report/ ./internal/gtpv1/ ./internal/forwarder/ 2>&1 | grep -v FAIL | tail -3", shell=True, cwd="/repo", env=env)
     for c in sys.argv[2:]:
         r = subprocess.run("/verif/check %s 2>&1 | grep -v '^  rejected' | tail -4" % c, shell=True, cwd="/verif")
 finally:
